@@ -96,6 +96,9 @@ Fold(tree, ops) == FoldFrom(tree, ops, 1)
 \* the distance is measured between the request instants (dt) or between the publish times (dpt).
 WithinTTL(dt, dpt, ttl)          == dt <= ttl * 1000 /\ dpt <= ttl * 1000
 BeyondTTL(dt, dpt, ttl, margin)  == dt > (ttl + margin) * 1000 /\ dpt > (ttl + margin) * 1000
+\* "nothing changed => 425": same = the two documents are equal trees.  A 425 is also accepted when only the
+\* publishTime is unchanged (dpt = 0) although the content differs: the text does not say what "changed" refers to
+\* (such events are counted by the driver as changed_with_same_publishTime).
 StatusOK(status, same, dt, dpt, ttl, margin) ==
    CASE same -> status = 425 \/ (status = 410 /\ ~WithinTTL(dt, dpt, ttl))
      [] ~same /\ WithinTTL(dt, dpt, ttl)         -> status = 200 \/ (status = 425 /\ dpt = 0)
